@@ -63,6 +63,7 @@ type ChunkReader struct {
 	chunkHash      hash.Hash
 	checksumHash   hash.Hash
 	isEOF          bool
+	isFinished     bool
 	isFirstHeader  bool
 	//TODO: Add debug logging for the reader
 	debug  bool
@@ -102,6 +103,10 @@ func NewSignedChunkReader(r io.Reader, authdata AuthData, region, secret string,
 
 // Read satisfies the io.Reader for this type
 func (cr *ChunkReader) Read(p []byte) (int, error) {
+	if cr.isFinished {
+		// the final chunk has been verified already
+		return 0, io.EOF
+	}
 	n, err := cr.r.Read(p)
 	if err != nil && err != io.EOF {
 		return 0, err
@@ -126,6 +131,10 @@ func (cr *ChunkReader) Read(p []byte) (int, error) {
 	cr.chunkHash.Write(p[:n])
 	if cr.checksumHash != nil {
 		cr.checksumHash.Write(p[:n])
+	}
+	if err == io.EOF {
+		// the stream ended before the final (zero sized) chunk
+		return n, io.ErrUnexpectedEOF
 	}
 	return n, err
 }
@@ -262,6 +271,17 @@ func (cr *ChunkReader) parseAndRemoveChunkInfo(p []byte) (int, error) {
 			}
 		}
 
+		// The wrapped auth reader delivers its verdict together with
+		// the final io.EOF of the underlying stream, so the stream must
+		// not be ended before the underlying reader reached its end
+		if !cr.isEOF {
+			if _, err := io.Copy(io.Discard, cr.r); err != nil {
+				return 0, err
+			}
+			cr.isEOF = true
+		}
+
+		cr.isFinished = true
 		return 0, io.EOF
 	}
 
